@@ -760,6 +760,18 @@ _reg("numpy.mean", _reduce(True))
 _reg("numpy.sum", _reduce(False))
 _reg("builtins.sum", h_builtin_sum)
 _reg("numpy.nan_to_num", h_nan_to_num)
+
+
+def h_finfo(I, args, kw, st, n):
+    """machine constants of IEEE double precision: absolute numbers (they do not scale with the data)"""
+    from fractions import Fraction as Fr
+    o = Obj("numpy.finfo")
+    o.attrs = {"eps": X.const(Fr(1, 2 ** 52)), "epsneg": X.const(Fr(1, 2 ** 53)), "resolution": X.const(Fr(1, 10 ** 15)), "tiny": X.const(Fr(1, 2 ** 1022)),
+               "smallest_normal": X.const(Fr(1, 2 ** 1022)), "max": X.const(Fr(2 ** 1024 - 2 ** 971)), "precision": X.const(15)}
+    return o
+
+
+_reg("numpy.finfo", h_finfo)
 _reg("numpy.divide numpy.true_divide", h_divide)
 def h_isclose(I, a, k, st, n):
     """np.isclose(a, b, rtol=1e-05, atol=1e-08): |a-b| <= atol + rtol*|b| elementwise."""
